@@ -12,12 +12,17 @@ else
 fi
 pass=0; fail=0; skip=0
 for id in $IDS; do
-  read PROP FN EXPECT <<<$(python3 -c "import json;m=json.load(open('selftest/mutants/index.json'))['$id'];print(m['property'],m['fn'],m['expect'])")
+  read PROP FN EXPECT <<<$(python3 -c "import json;m=json.load(open('selftest/mutants/index.json'))['$id'];print(m['property'],m['fn'] or '-',m['expect'])")
   T=$(mktemp -d /tmp/govc_mut.XXXXXX)
   rsync -a --exclude .git /repo/ $T/repo/
   if ! (cd $T/repo && patch -s -p1 < /verif/selftest/mutants/$id.patch); then echo "SKIP $id (patch no longer applies)"; skip=$((skip+1)); rm -rf $T; continue; fi
   if ! (cd $T/repo && go build ./... 2>$T/build.log); then echo "SKIP $id (mutant does not compile)"; skip=$((skip+1)); rm -rf $T; continue; fi
-  out=$(bin/govc check -prop $PROP -repo $T/repo -fn "$FN" -noreplay -known /verif/known_findings.json 2>&1); rc=$?
+  if [ "$FN" = "-" ]; then
+    # a seeded change: the whole check of the property (callee closure included)
+    out=$(bin/govc check -prop $PROP -repo $T/repo -noreplay -known /verif/known_findings.json 2>&1); rc=$?
+  else
+    out=$(bin/govc check -prop $PROP -repo $T/repo -fn "$FN" -noreplay -known /verif/known_findings.json 2>&1); rc=$?
+  fi
   if [ $rc -eq 1 ] && echo "$out" | grep -E "^FAILED .*($EXPECT)" >/dev/null; then echo "CAUGHT $id: $(echo "$out" | grep -E "^FAILED .*($EXPECT)" | head -1)"; pass=$((pass+1));
   else echo "MISSED $id (rc=$rc)"; echo "$out" | tail -3; fail=$((fail+1)); fi
   rm -rf $T
